@@ -354,7 +354,24 @@ def splice_fn(ntext, spec, fname):
                 j += 1
             txt = ' ' + G_OPEN + ' '.join(l.strip() for l in lines) + ' ' + G_CLOSE
             if ntext[j] != '{':
-                raise ExtractError('unsupported', '%s: closure #%d has an expression body; a contract needs a block body' % (fname, n))
+                # expression body: wrap it in (ghost) braces; it ends at the `)` or `,` that closes the argument
+                k = j
+                while k < bclose:
+                    kind, a, b2 = rs.next_code(ntext, k)
+                    if kind != 'code':
+                        k = b2
+                        continue
+                    if ntext[k] in '([{':
+                        k = rs.match_close(ntext, k) + 1
+                        continue
+                    if ntext[k] in '),;':
+                        break
+                    k += 1
+                kk = k
+                while ntext[kk - 1].isspace():
+                    kk -= 1
+                edits.append((kk, G_OPEN + ' }' + G_CLOSE, 0))
+                txt = txt + G_OPEN + '{ ' + G_CLOSE
             edits.append((pend, txt, 0))
 
     # --- statement anchors (line based)
